@@ -203,6 +203,7 @@ def _answer_pred(ctx, repo, m, fn, k, accs):
     where = f"{m.rel}:{fn.lineno}"
     pname = fn.args.args[0].arg
     decided = False
+    const_paths = []
     from ..paths import decide_by_assignments
     for p in enum_paths(fn.body, decide=decide_by_assignments):
         conds = {ast.unparse(t): tr for t, tr in p.conds()}
@@ -227,6 +228,21 @@ def _answer_pred(ctx, repo, m, fn, k, accs):
         decided = True
         if isinstance(R, ast.Constant) and isinstance(R.value, bool):
             extra = [ast.unparse(t) for t, tr in p.conds() if ast.unparse(t) != f"{pname}.has_avp('result_code_avp')"]
+            # (b') a constant returned under tests on the integer of the Result-Code: `if lo <= code <= hi: return True` is the
+            #      interval test written as a statement; the accepted set is the union over the paths returning True
+            ivars = [n_ for n_ in env if _is_int_of_rc_data(ast.Name(id=n_, ctx=ast.Load()), env, pname)]
+            if extra and len(ivars) == 1:
+                try:
+                    cur = U
+                    for t, tr in p.conds():
+                        if ast.unparse(t) == f"{pname}.has_avp('result_code_avp')":
+                            continue
+                        s_t = test_set(repo, m, t, ivars[0], U)
+                        cur = cur.intersect(s_t if tr else s_t.complement())
+                    const_paths.append((cur, R.value))
+                    continue
+                except Undecidable:
+                    pass
             ctx.violate("R-INTERVAL/answer", construct, where,
                         f"with a Result-Code present a path returns the constant {R.value} (under {extra}) without looking at the "
                         f"code: the predicate {'holds for codes outside' if R.value else 'fails for codes inside'} the {k}xxx family "
@@ -283,6 +299,14 @@ def _answer_pred(ctx, repo, m, fn, k, accs):
         ctx.undecided("R-INTERVAL/answer", construct, where,
                       f"return expression `{ast.unparse(p.term_node.value)}` is neither a delegation to the integer "
                       f"predicate, an interval test, nor the mask idiom", key="shape")
+    if const_paths:
+        acc = ISet([])
+        for cur, val in const_paths:
+            if val:
+                acc = acc.union(cur)
+        ok, why = family_ok(acc, k)
+        ctx.decide(ok, "R-INTERVAL/answer", construct, where, f"interval test {acc} == family {k}",
+                   f"interval test accepts {acc}: {why}", key="interval")
     if not decided:
         ctx.undecided("R-INTERVAL/answer", construct, where, "no path guarded by has_avp('result_code_avp') found",
                       key="guard")
